@@ -58,17 +58,17 @@ CAST_SQL = {"boolean": "BOOLEAN", "tinyint": "TINYINT", "smallint": "SMALLINT", 
             "double": "DOUBLE", "decimalP": "DECIMAL(18, 3)", "text": "VARCHAR", "date": "DATE",
             "timestampntz": "TIMESTAMP"}
 
-UN_PLAIN = ["neg", "not", "isNull", "length", "upper", "lower", "abs", "year", "month", "day", "extractYear",
+UN_PLAIN = ["neg", "not", "isNull", "length", "upper", "lower", "abs", "sqrt", "ln", "exp", "sign", "year", "month", "day", "extractYear",
             "count", "sum", "min", "max", "avg", "sumOver", "maxOver", "countOver", "avgOver"]
 UN = UN_PLAIN + ["cast_" + t for t in CAST_TARGETS]
-BIN = ["add", "sub", "mul", "div", "intdiv", "mod", "eq", "neq", "lt", "le", "gt", "ge", "and", "or", "dpipe", "like",
+BIN = ["add", "sub", "mul", "div", "intdiv", "mod", "pow", "eq", "neq", "lt", "le", "gt", "ge", "and", "or", "dpipe", "like",
        "coalesce", "nullif", "concat"]
 TERN = ["caseWhen", "iff"]
 AGG = {"count", "sum", "min", "max", "avg"}
 
 UN_SQL = {
     "neg": "-{a}", "not": "NOT {a}", "isNull": "{a} IS NULL", "length": "LENGTH({A})", "upper": "UPPER({A})",
-    "lower": "LOWER({A})", "abs": "ABS({A})", "year": "YEAR({A})", "month": "MONTH({A})", "day": "DAY({A})",
+    "lower": "LOWER({A})", "abs": "ABS({A})", "sqrt": "SQRT({A})", "ln": "LN({A})", "exp": "EXP({A})", "sign": "SIGN({A})", "year": "YEAR({A})", "month": "MONTH({A})", "day": "DAY({A})",
     "extractYear": "EXTRACT(YEAR FROM {a})", "count": "COUNT({A})", "sum": "SUM({A})", "min": "MIN({A})", "max": "MAX({A})",
     "avg": "AVG({A})", "sumOver": "SUM({A}) OVER ()", "maxOver": "MAX({A}) OVER ()", "countOver": "COUNT({A}) OVER ()",
     "avgOver": "AVG({A}) OVER ()",
@@ -76,7 +76,7 @@ UN_SQL = {
 for _t in CAST_TARGETS:
     UN_SQL["cast_" + _t] = "CAST({A} AS " + CAST_SQL[_t] + ")"
 BIN_SQL = {
-    "add": "{a} + {b}", "sub": "{a} - {b}", "mul": "{a} * {b}", "div": "{a} / {b}", "intdiv": "{a} // {b}", "mod": "{a} % {b}",
+    "add": "{a} + {b}", "sub": "{a} - {b}", "mul": "{a} * {b}", "div": "{a} / {b}", "intdiv": "{a} // {b}", "mod": "{a} % {b}", "pow": "{a} ** {b}",
     "eq": "{a} = {b}", "neq": "{a} <> {b}", "lt": "{a} < {b}", "le": "{a} <= {b}", "gt": "{a} > {b}", "ge": "{a} >= {b}",
     "and": "{a} AND {b}", "or": "{a} OR {b}", "dpipe": "{a} || {b}", "like": "{a} LIKE {b}",
     "coalesce": "COALESCE({A}, {B})", "nullif": "NULLIF({A}, {B})", "concat": "CONCAT({A}, {B})",
@@ -189,6 +189,8 @@ def ety_of_duck(t: str) -> str:
     """engine class of a DuckDB type name"""
     if t.startswith("ERR"):
         return "error"
+    if t.endswith("]") or t.startswith(("STRUCT", "MAP", "UNION")):
+        return "other"
     base = t.split("(")[0].strip().strip('"')
     return {
         "BOOLEAN": "boolean", "TINYINT": "integer", "SMALLINT": "integer", "INTEGER": "integer", "BIGINT": "integer",
@@ -213,6 +215,7 @@ def sg_annotate(sql_expr: str):
     out = S["annotate_types"](ast, schema=S["schema"], dialect="duckdb")
     after = out.sql(dialect="duckdb")
     ty = out.selects[0].type
+    _SG["last_root"] = type(out.selects[0].unalias()).__name__
     if ty is None:
         return "NONE", False, before == after
     this = ty.this
@@ -311,6 +314,10 @@ NODEC_SAMPLES = {
     "upper": ("UPPER(t.v)", "Upper", lambda n: [n.this]),
     "lower": ("LOWER(t.v)", "Lower", lambda n: [n.this]),
     "abs": ("ABS(t.i)", "Abs", lambda n: [n.this]),
+    "sqrt": ("SQRT(t.i)", "Sqrt", lambda n: [n.this]),
+    "ln": ("LN(t.i)", "Ln", lambda n: [n.this]),
+    "exp": ("EXP(t.i)", "Exp", lambda n: [n.this]),
+    "sign": ("SIGN(t.i)", "Sign", lambda n: [n.this]),
     "year": ("YEAR(t.da)", "Year", lambda n: [n.this]),
     "month": ("MONTH(t.da)", "Month", lambda n: [n.this]),
     "day": ("DAY(t.da)", "Day", lambda n: [n.this]),
@@ -324,6 +331,7 @@ NODEC_SAMPLES = {
     "cast": ("CAST(t.i AS BIGINT)", "Cast", lambda n: [n.this]),
     "add": ("t.i + t.bi", "Add", None), "sub": ("t.i - t.bi", "Sub", None), "mul": ("t.i * t.bi", "Mul", None),
     "div": ("t.i / t.bi", "Div", None), "intdiv": ("t.i // t.bi", "IntDiv", None), "mod": ("t.i % t.bi", "Mod", None),
+    "pow": ("t.i ** t.bi", "Pow", lambda n: [n.this, n.expression]),
     "eq": ("t.i = t.bi", "EQ", None), "neq": ("t.i <> t.bi", "NEQ", None), "lt": ("t.i < t.bi", "LT", None),
     "le": ("t.i <= t.bi", "LTE", None), "gt": ("t.i > t.bi", "GT", None), "ge": ("t.i >= t.bi", "GTE", None),
     "and": ("t.bo AND t.bo", "And", None), "or": ("t.bo OR t.bo", "Or", None), "dpipe": ("t.v || t.v", "DPipe", None),
@@ -340,7 +348,7 @@ NODEC_SAMPLES = {
     "interval": ("INTERVAL 1 DAY", "Interval", lambda n: []),
 }
 NODEC_ORDER = list(NODEC_SAMPLES)
-BINARY_NODEC = ["add", "sub", "mul", "div", "intdiv", "mod", "eq", "neq", "lt", "le", "gt", "ge", "and", "or", "dpipe", "like",
+BINARY_NODEC = ["add", "sub", "mul", "div", "intdiv", "mod", "pow", "eq", "neq", "lt", "le", "gt", "ge", "and", "or", "dpipe", "like",
                 "nullif", "is"]
 
 
@@ -640,18 +648,25 @@ def translate(chk: Check, table) -> str:
 _EVAL = {}
 
 
-def evaluate(e):
-    """both real sides for one expression: sqlglot's root type and DuckDB's typeof"""
-    sql = render(e)
+def evaluate_sql(sql):
+    """both real sides for one expression text: sqlglot's root type and DuckDB's typeof"""
     r = _EVAL.get(sql)
     if r is None:
+        root = "?"
         try:
             name, param, same = sg_annotate(sql)
+            root = _SG.get("last_root", "?")
         except Exception as ex:  # noqa
-            name, param, same = "EXC:" + type(ex).__name__, False, True
-        r = {"sql": sql, "sg": name, "param": param, "sql_same": same, "duck": duck_typeof(sql)}
+            # SQL the duckdb generator wrote but the duckdb parser rejects is not this property's business
+            unparsed = type(ex).__name__ in ("ParseError", "TokenError")
+            name, param, same = ("UNPARSED" if unparsed else "EXC:" + type(ex).__name__), False, True
+        r = {"sql": sql, "sg": name, "param": param, "sql_same": same, "duck": duck_typeof(sql), "root": root}
         _EVAL[sql] = r
     return r
+
+
+def evaluate(e):
+    return evaluate_sql(render(e))
 
 
 def child_desc(x):
@@ -675,7 +690,12 @@ def child_desc(x):
 
 def verdict(e):
     """None when the property holds / makes no claim on e, else (kind, sgClass, duckClass)"""
-    r = evaluate(e)
+    return verdict_of(evaluate(e))
+
+
+def verdict_of(r):
+    if r["sg"] == "UNPARSED":
+        return None
     if not r["sql_same"]:
         return ("sql-changed", "", "")
     if r["sg"].startswith("EXC:"):
@@ -831,7 +851,7 @@ def gen_expr(rng, depth, want=None, agg="none"):
     if want in ("integer", "decimal"):
         k = rng.choice(["arith", "arith", "arith", "neg", "abs", "fn"])
         if k == "arith":
-            op = rng.choice(["add", "sub", "mul", "div", "intdiv", "mod"] if want == "decimal" else ["add", "sub", "mul", "intdiv", "mod", "add", "sub"])
+            op = rng.choice(["add", "sub", "mul", "div", "intdiv", "mod", "pow"] if want == "decimal" else ["add", "sub", "mul", "intdiv", "mod", "add", "sub"])
             other = rng.choice(["integer", "decimal"]) if want == "decimal" else "integer"
             a, b = sub(want), sub(other)
             if rng.random() < 0.5:
@@ -842,9 +862,13 @@ def gen_expr(rng, depth, want=None, agg="none"):
         if k in ("neg", "abs"):
             return ["un", k, sub(want)]
         if want == "integer":
-            f = rng.choice(["length", "year", "month", "day", "extractYear"])
+            f = rng.choice(["length", "year", "month", "day", "extractYear", "sign"])
+            if f == "sign":
+                return ["un", f, sub(rng.choice(["integer", "decimal"]))]
             return ["un", f, sub("text" if f == "length" else rng.choice(["date", "timestamp"]))]
-        return ["bin", "div", sub("integer"), sub("integer")]
+        if rng.random() < 0.5:
+            return ["un", rng.choice(["sqrt", "ln", "exp"]), sub(rng.choice(["integer", "decimal"]))]
+        return ["bin", rng.choice(["div", "pow"]), sub("integer"), sub("integer")]
     if want == "text":
         k = rng.choice(["upper", "lower", "dpipe", "concat", "dpipe"])
         if k in ("upper", "lower"):
@@ -993,6 +1017,7 @@ def search(chk: Check, depth1: list, hints: list, budget_s: float) -> None:
 
     for e in WITNESSES + list(hints):
         one(e, "witness/hint")
+    sweep(chk)
     for e in d1:
         one(e, "depth-1 exhaustive over representatives")
         if len(chk.violations) >= 8:
@@ -1001,6 +1026,8 @@ def search(chk: Check, depth1: list, hints: list, budget_s: float) -> None:
         for e in random_exprs(chk, 50):
             one(e, "random nested")
     chk.search_info = {"ran": True, "budget_s": budget_s, "expressions": tried, "engine_rejected": skipped, "disagreeing": found,
+                       "streams": "witnesses, metadata sweep (every Binary/Unary/Func entry of the duckdb EXPRESSION_METADATA, 1-3 scalar args), "
+                                  "depth-1 exhaustive over the modelled operators, random nested",
                        "oracle": "class(annotate_types root type) == class(DuckDB typeof) for every expression DuckDB accepts; "
                                  ".sql() unchanged by annotation"}
 
@@ -1018,6 +1045,129 @@ WITNESSES = [
     ["un", "sum", ["col", "ti"]],
     ["un", "length", ["col", "v"]],
 ]
+
+
+
+# ------------------------------------------------------------------------------------------ the unmodelled-but-engine-checkable sweep
+SWEEP_LEAVES = {"2": "integer#", "1.5": "decimal#", "'abc'": "text*"}
+
+
+def _sweep_leaf(name):
+    exp = sg()["exp"]
+    if name in COLS:
+        return exp.column(name, table="t")
+    if name == "'abc'":
+        return exp.Literal.string("abc")
+    return exp.Literal.number(name)
+
+
+def _sweep_desc(name):
+    return CLASS_OF[COLS[name][1]] if name in COLS else SWEEP_LEAVES[name]
+
+
+def sweep_combos():
+    cols = list(COLS)
+    l1 = [(x,) for x in cols + list(SWEEP_LEAVES)]
+    l2 = ([(a, b) for a in cols for b in cols] + [(a, "2") for a in cols] + [("2", a) for a in cols]
+          + [(a, "'abc'") for a in ("v", "i", "da")] + [(a, "1.5") for a in ("i", "bi", "db", "de")])
+    l3 = [(a, a, a) for a in cols] + [("v", "i", "i"), ("v", "v", "v"), ("v", "i", "2"), ("v", "2", "2"), ("i", "i", "db"), ("db", "i", "i"),
+                                      ("v", "'abc'", "'abc'"), ("da", "da", "i"), ("i", "2", "2"), ("db", "2", "2"), ("bo", "i", "i"),
+                                      ("bo", "i", "db"), ("ts", "da", "da")]
+    return {1: l1, 2: l2, 3: l3}
+
+
+def sweep_items(chk: Check):
+    """EVERY Binary / Unary / Func class of the duckdb dialect's EXPRESSION_METADATA, instantiated generically with 1-3 scalar
+    arguments over the typed columns and a few literals, rendered with the duckdb generator. Classes the Lean model covers are
+    skipped (their depth-1 space is searched exhaustively by the model-shaped stream). Yields (class name, combo, sql)."""
+    import logging
+
+    S = sg()
+    exp = S["exp"]
+    modelled = {v[1] for v in NODEC_SAMPLES.values()}
+    combos = sweep_combos()
+    lg = logging.getLogger("sqlglot")
+    old = lg.level
+    lg.setLevel(logging.CRITICAL)
+    n_cls = n_built = 0
+    try:
+        live = set(S["dialect"].EXPRESSION_METADATA)
+        # plus every class that HAD an entry when the check was built (corpus/C16/metadata_classes.json): an entry that
+        # disappears from the table leaves the node UNKNOWN, which the oracle then compares with DuckDB's type
+        base_path = os.path.join(os.path.dirname(os.path.dirname(os.path.dirname(os.path.abspath(__file__)))), "corpus", "C16", "metadata_classes.json")
+        baseline = json.load(open(base_path))["classes"] if os.path.exists(base_path) else []
+        gone = [n for n in baseline if isinstance(getattr(exp, n, None), type) and getattr(exp, n) not in live]
+        chk.cov["sweep_entries_missing_vs_baseline"] = gone
+        for cls in sorted(live | {getattr(exp, n) for n in gone}, key=lambda c: c.__name__):
+            if not issubclass(cls, (exp.Func, exp.Binary, exp.Unary)) or cls.__name__ in modelled:
+                continue
+            n_cls += 1
+            at = cls.arg_types
+            req = [k for k, v in at.items() if v]
+            order = req + [k for k in at if k not in req]
+            for ar in (1, 2, 3):
+                for combo in combos[ar]:
+                    vals = [_sweep_leaf(x) for x in combo]
+                    args, i = {}, 0
+                    for k in order:
+                        if i >= ar:
+                            break
+                        if k == "expressions":
+                            args[k] = vals[i:]
+                            i = ar
+                        else:
+                            args[k] = vals[i]
+                            i += 1
+                    if i < ar or any(k not in args for k in req):
+                        continue
+                    try:
+                        sql = cls(**args).sql("duckdb")
+                    except Exception:  # noqa
+                        continue
+                    n_built += 1
+                    yield cls.__name__, combo, sql
+    finally:
+        lg.setLevel(old)
+        chk.cov["sweep"] = {"metadata_classes_swept": n_cls, "instances_rendered": n_built}
+
+
+def consider_sql(chk: Check, cls_name, combo, sql) -> bool:
+    r = evaluate_sql(sql)
+    v = verdict_of(r)
+    if not v:
+        return False
+    head = cls_name if r["root"] == cls_name else f"{cls_name}>{r['root']}"  # what was built > what its duckdb SQL parses to
+    body = f"{head}({','.join(_sweep_desc(x) for x in combo)})"
+    if v[0] == "class":
+        key = f"sweep:{body}|sg={v[1]}|duck={v[2]}"
+        what = (f"annotate_types infers {r['sg']} ({v[1]}) for `{sql}` but DuckDB {_DUCK.get('version', '')} reports {r['duck']} ({v[2]})")
+    elif v[0] == "sql-changed":
+        key = f"sweep-sql-changed:{body}"
+        what = f"annotate_types changed the SQL generated for `{sql}`"
+    else:
+        key = f"sweep-raised:{body}"
+        what = f"annotate_types raised {r['sg']} on `{sql}`"
+    chk.report_violation(key, what, {"sql": sql, "built_from": cls_name, "args": list(combo), "source": "metadata sweep"},
+                         context={"engine": "duckdb"})
+    return True
+
+
+def sweep(chk: Check) -> None:
+    seen = set()
+    accepted = found = 0
+    for cls_name, combo, sql in sweep_items(chk):
+        if sql in seen:
+            continue
+        seen.add(sql)
+        d = duck_typeof(sql)
+        if d.startswith("ERR") or ety_of_duck(d) == "other":
+            continue
+        accepted += 1
+        chk.case(("sweep", sql), nontrivial=True)
+        chk.count("sweep:engine-class:" + CLASS_OF_ETY[ety_of_duck(d)])
+        if consider_sql(chk, cls_name, combo, sql):
+            found += 1
+    chk.cov["sweep"].update({"distinct_sql": len(seen), "accepted_by_duckdb_in_a_property_class": accepted, "disagreeing": found})
 
 
 # ------------------------------------------------------------------------------------------ entry points
@@ -1062,6 +1212,12 @@ def replay(path: str) -> int:
     if not r:
         print(json.dumps(rec, indent=1))
         return 1
+    if "expr" not in r:
+        ev = evaluate_sql(r["sql"])
+        v = verdict_of(ev)
+        print(f"replay: `{ev['sql']}`: annotate_types -> {ev['sg']}, DuckDB typeof -> {ev['duck']}, sql unchanged: {ev['sql_same']}")
+        print("replay:", f"VIOLATES: {v}" if v else "holds")
+        return 1 if v else 0
     e = r["expr"]
     ev = evaluate(e)
     v = verdict(e)
